@@ -142,6 +142,32 @@ def main():
         want_ions = sorted(base[z][2] + base[z][3])
         if rec["ions"] != want_ions:
             fail("C10:public-core.ions", "elements.%s.ions is %r; element_base in core.py lists %r" % (rec["symbol"], rec["ions"], want_ions), Z=z)
+    # pickled atoms of T are restored into T: in a process that has no table of that name they are not restored into
+    # some other table (a refusal is the only admissible alternative)
+    try:
+        import pickle, base64, subprocess
+        t = tables["q1"]
+        blobs = {"q1.Fe": t.Fe, "q1.Fe[56]": t.Fe[56], "q1.Fe.ion[2]": t.Fe.ion[2], "q1.Fe[56].ion[3]": t.Fe[56].ion[3], "q1.D": t.D}
+        payload = {k: base64.b64encode(pickle.dumps(v)).decode() for k, v in blobs.items()}
+        code = ("import sys, json, pickle, base64, periodictable\n"
+                "out = {}\n"
+                "for k, b in json.loads(sys.stdin.read()).items():\n"
+                "    try:\n"
+                "        a = pickle.loads(base64.b64decode(b))\n"
+                "        out[k] = 'atom of table %r' % (getattr(a, 'table', None) or a.element.table)\n"
+                "    except Exception as e:\n"
+                "        out[k] = 'refused'\n"
+                "print(json.dumps(out))\n")
+        p = subprocess.run([sys.executable, "-c", code], input=json.dumps(payload), stdout=subprocess.PIPE, stderr=subprocess.PIPE, text=True,
+                           timeout=300, cwd="/", env=dict(os.environ))
+        res = json.loads(p.stdout.strip().split("\n")[-1]) if p.returncode == 0 else {"child": "failed: " + p.stderr[-200:]}
+        for k, v in res.items():
+            if v not in ("refused", "atom of table 'q1'"):
+                fail("C10:pickle-leaves-table", "pickle.dumps(%s) loaded in an interpreter that has no table 'q1' gives an %s" % (k, v),
+                     history_text=["q1 = PeriodicTable('q1')", "pickle.dumps(%s)" % k, "new interpreter: pickle.loads(..)"], key=k)
+                break
+    except Exception as e:  # noqa
+        fail("C10:pickle-leaves-table:raises", "the cross-interpreter pickle probe raised %s: %s" % (type(e).__name__, e))
     try:
         nlazy = lazy_breadth(fail)
     except Exception as e:  # noqa
